@@ -69,6 +69,23 @@ def run(tier):
             rep.violation("spec:GaussSeidel " + ",".join(res.violated), {"tlc": res.out[-3000:]})
     jobs = jobs_for(tier, rng)
     j2, traces = solverlib.run_jobs(jobs)
+    # reproducibility from random_seed ACROSS interpreter processes: the same shuffled jobs are run once more in
+    # processes with another string-hash salt (PYTHONHASHSEED); the permutations drawn there become the reference
+    # sequence (permref) of the first run's traces
+    again = [k for k, j in enumerate(jobs) if j.get("shuffle") and not j.get("twin") and len(j["calls"]) == 1
+             and j["calls"][0] < 50][: (6 if tier == "quick" else 40)]
+    if again:
+        _, other = solverlib.run_jobs([jobs[k] for k in again], extra_env={"PYTHONHASHSEED": "20261004"})
+        first = {id(job): t for job, t in zip(j2, traces)}
+        for k, t2 in zip(again, other):
+            t1 = first.get(id(jobs[k]))
+            if t1 is None or "ev" not in t1 or "ev" not in t2:
+                continue
+            sw1 = [e for e in t1["ev"] if e["e"] == "sweep"]
+            sw2 = [e for e in t2["ev"] if e["e"] == "sweep"]
+            for e1, e2 in zip(sw1, sw2):
+                e1["permref"] = e2["perm"]
+        rep.extra["shuffled_jobs_repeated_in_a_process_with_another_hash_salt"] = len(again)
     solverlib.judge(rep, j2, traces, label="C06")
     multi = sum(1 for t in traces if t.get("layout", {}).get("nb", 1) > 1)
     padded = sum(1 for t in traces if t.get("layout", {}).get("pad", 0) > 0)
